@@ -566,13 +566,24 @@ def c18_call_expr(name: int, a0: int, a1: int, k0: int, nargs: int, nkw: int) ->
 
 
 def obligations(tier, seed):
-  wcubes = [Cube(f'k{k1}_w{w}', [], dict(k1=k1, w=w), est=12 * 225 * 2) for k1 in range(12) for w in range(6)]
+  # thorough: every (k1, wrapper, root kind) cube with k2 and l1 symbolic, l2 tied to l1 in three different ways
+  wcubes = [Cube(f'k{k1}_w{w}_p{int(pos)}_o{o}', [f'l2 == (l1 + {k1} + {o}) % 15'], dict(k1=k1, w=w, pos=pos), est=180)
+            for k1 in range(12) for w in range(6) for pos in (False, True) for o in (0, 5, 10) if (k1 + w + o) % 2 == 0]
   if tier == 'quick':
     # k2 and l1 symbolic; l2 tied to l1, wrapper and root kind by cube
     wcubes = [Cube(f'k{k1}', [f'l2 == (l1 + {k1}) % 15'], dict(k1=k1, w=k1 % 6, pos=bool(k1 % 2)), est=180) for k1 in range(12)]
-  dcubes = [Cube(f'n{n}_d{d0}_{d1}', [], dict(dict(n=n, d0=d0, d1=d1), **{f'd{j}': 0 for j in range(max(n, 2), 4)}),
-                 est=10 ** max(n - 2, 0) * 256) for n in range(1, 5)
-            for d0 in range(10) for d1 in range(10) if n > 1 or d1 == 0]
+  # thorough: all sequences of length <= 3 under every grouping / read schedule; length 4 under 20 schedules
+  dcubes = []
+  for n in range(1, 5):
+    for d0 in range(10):
+      for d1 in range(10):
+        if n == 1 and d1:
+          continue
+        fix = dict(n=n, d0=d0, d1=d1)
+        for j in range(max(n, 2), 4):
+          fix[f'd{j}'] = 0
+        pre = ['split in (0, 5, 10) and reads in (0, 5, 10, 15)'] if n == 4 else []
+        dcubes.append(Cube(f'n{n}_d{d0}_{d1}', pre, fix, est=10 ** max(n - 2, 0) * (12 if n == 4 else 256)))
   if tier == 'quick':
     dcubes = []
     for n in range(1, 5):
